@@ -58,6 +58,18 @@ CHECKS = {
         ".org are not generated. Size rules per carrier are used only to attribute the known scope finding.",
    technique="TLA+ two-pass machine model-checked by TLC (LabelStable); TLC-generated programs replayed "
              "into the real assembler with self-describing label probes; TLC trace acceptor"),
+ "C12": dict(
+   category="model_checking",
+   text="Proc.tla is the process-level machine (phases, diagnostics, exit status, output file incl. a stale one "
+        "from an earlier run); TLC checks Atomic/NeverSilent on it. TLC enumerates base program x 33 single-point "
+        "corruption kinds x position x wrapping (plain, .if 1, .else part, macro body, .repeat, .scope) x output "
+        "type x stale file planted; each case runs the real naken_asm executable and TLC accepts the observed "
+        "(status, diagnostics, file state) iff it is a final state of Proc.",
+   design_ref="DESIGN.md 4 C12",
+   note="Only source-level corruption. Diagnostics = stdout lines matching a fixed pattern. File completeness by "
+        "terminator/magic (full decoding is C03). Combinations that can yield a valid program are excluded.",
+   technique="TLA+ process state machine checked by TLC; TLC-enumerated corruption cases run on the real "
+             "executable; TLC trace acceptor decides each run"),
 }
 
 NOT_YET = "machinery for this property is not built yet in this revision (planned in DESIGN.md section 8)"
